@@ -287,6 +287,9 @@ func (c *crawlGen) seed(cfg *Cfg) []QRow {
 	if c.o.Hops && cfg.MaxHops > 0 && c.Chance(1, 3) {
 		shape = 12 // pages with outlinks matter whenever hops are allowed
 	}
+	if c.o.Prop == "C02" && cfg.MaxRetry > 0 && c.Chance(1, 4) {
+		shape = 7 // every attempt's response is a capture of its own: retried URLs matter for "captured before finished"
+	}
 	maxAssets := 7
 	if c.o.Small {
 		maxAssets = 3
@@ -350,7 +353,11 @@ func (c *crawlGen) seed(cfg *Cfg) []QRow {
 	case 7: // retry then ok
 		p := "/" + c.Name("retry")
 		v := URL(host, p)
-		c.res(host, p, v, 0, Must, Status(c.PickInt(500, 429, 408, 425)), OK("text/html", Lit("<html><body>finally</body></html>")))
+		first := Status(c.PickInt(500, 429, 408, 425, 503, 500))
+		if c.Chance(1, 2) {
+			first.Body = Pad(2000+c.N(60000), c.Uid()) // an error page of some size: its record takes several writes
+		}
+		c.res(host, p, v, 0, Must, first, OK("text/html", Lit("<html><body>finally</body></html>")))
 		return []QRow{c.row(v)}
 	case 8: // seed that cannot be normalised (no request may ever be sent)
 		v := c.Pick("http://nodot/"+c.Name("x"), "ftp://"+host+"/"+c.Name("x"), "http://localhost/"+c.Name("x"), "http://127.0.0.1/"+c.Name("x"))
